@@ -14,7 +14,7 @@ NAUNET_TREE=$wt timeout 600 /venv/bin/python $demo >/tmp/vseed/$id$v.patched.log
 suite=$(timeout 900 /venv/bin/python -m pytest -q -p no:cacheprovider --timeout=900 --continue-on-collection-errors 2>&1 | tail -1)
 checks=""
 for p in C01 C02 C03 C04 C05 C06 C07 C08 C09 C10 C11 C12 C13 C14 C15 C16 C17 C18 C19 C20; do
-  (cd /verif && NAUNET_REPO=$wt /venv/bin/python -m sa.check $p --tier quick --no-evidence >/dev/null 2>&1); rc=$?
+  (cd ${VERIF_DIR:-/verif} && NAUNET_REPO=$wt /venv/bin/python -m sa.check $p --tier quick --no-evidence >/dev/null 2>&1); rc=$?
   [ $rc -ne 0 ] && checks="$checks $p:$rc"
 done
 cd /; git -C /repo worktree remove --force $wt
